@@ -151,11 +151,20 @@ class _JobBehaviour:
                 rec.loop._vt += sp['b']
         except asyncio.CancelledError:
             rec.ev('cancel-seen', who)
+            answered = False
             try:
                 if sp['c']:
                     await asyncio.sleep(sp['c'])
+                if sp.get('cexc'):
+                    # a job whose clean-up fails: it does end when cancelled, but by raising
+                    exc = VExc(who)
+                    rec.name(exc, 'X:' + who)
+                    rec.ev('exit', who, how='cancelled-raise', obj=rec.tok(exc))
+                    answered = True
+                    raise exc
             finally:
-                rec.ev('exit', who, how='cancelled')
+                if not answered:
+                    rec.ev('exit', who, how='cancelled')
             raise
         if sp['outcome'] == 'raise':
             exc = EXC_CLASSES[sp.get('exc', 'VExc')](sp.get('excmsg', who))
